@@ -179,6 +179,17 @@ func main() {
 				}
 			}
 		}
+		for _, imp := range f.Imports {
+			path := strings.Trim(imp.Path.Value, "`\"")
+			if sh, ok := shimFor[path]; ok {
+				// randomness the simulator owns (shims.go)
+				imp.Path.Value = fmt.Sprintf("%q", modulePath(*dst)+"/verifshim/"+sh[0])
+				if imp.Name == nil && sh[0] == "randv2" {
+					imp.Name = &ast.Ident{Name: "rand"}
+				}
+				shimsUsed[path] = true
+			}
+		}
 		var buf bytes.Buffer
 		cfg := printer.Config{Mode: printer.SourcePos | printer.TabIndent | printer.UseSpaces, Tabwidth: 8}
 		if err := cfg.Fprint(&buf, fset, f); err != nil {
@@ -199,6 +210,33 @@ func main() {
 	fmt.Fprintf(&g, "// Code generated by verif instr. DO NOT EDIT.\n\npackage %s\n\n", pkgName)
 	if onceSites > 0 {
 		g.WriteString("import \"sync\"\n\n")
+	}
+	if clockSites > 0 {
+		g.WriteString("import \"time\"\n\n")
+	}
+	g.WriteString("// VerifClock, when non-nil, is the only clock the package reads (nanoseconds since the Unix epoch).\n")
+	g.WriteString("var VerifClock func() int64\n\n")
+	fmt.Fprintf(&g, "// VerifClockSites is the number of calls of time.Now, time.Since and time.Until routed through VerifClock.\nconst VerifClockSites = %d\n\n", clockSites)
+	{
+		var used []string
+		for p := range shimsUsed {
+			used = append(used, p)
+		}
+		sort.Strings(used)
+		fmt.Fprintf(&g, "// VerifShims lists the packages replaced by simulator-owned stand-ins.\nvar VerifShims = %#v\n\n", used)
+		for _, p := range used {
+			sh := shimFor[p]
+			dir := filepath.Join(*dst, "verifshim", sh[0])
+			if err := os.MkdirAll(dir, 0o755); err != nil {
+				fatal("%v", err)
+			}
+			if err := os.WriteFile(filepath.Join(dir, "shim.go"), []byte(sh[1]), 0o644); err != nil {
+				fatal("%v", err)
+			}
+		}
+	}
+	if clockSites > 0 {
+		g.WriteString(clockHelpers)
 	}
 	g.WriteString("// VerifHook, when non-nil, is called before every statement of the package.\n")
 	g.WriteString("var VerifHook func(uint32)\n\n")
@@ -682,7 +720,40 @@ func instrExprFuncLits(e ast.Expr, fn string) {
 // site carries the same flag as "a lock has just been acquired", so the
 // schedule's "pre-empt at the k-th synchronisation event of this operation"
 // entries address these points directly.
-var atomicSites, onceSites int
+var atomicSites, onceSites, clockSites int
+
+var shimsUsed = map[string]bool{}
+
+// modulePath reads the module path from the go.mod already copied to dst.
+func modulePath(dst string) string {
+	b, err := os.ReadFile(filepath.Join(dst, "go.mod"))
+	if err != nil {
+		fatal("%v", err)
+	}
+	for _, l := range strings.Split(string(b), "\n") {
+		if f := strings.Fields(l); len(f) == 2 && f[0] == "module" {
+			return strings.Trim(f[1], "\"")
+		}
+	}
+	fatal("no module line in go.mod")
+	return ""
+}
+
+const clockHelpers = `func verifNowT() time.Time {
+	if h := VerifClock; h != nil {
+		return time.Unix(0, h())
+	}
+	return time.Now()
+}
+
+func verifNow(_ func() time.Time) time.Time { return verifNowT() }
+
+func verifSince(_ func(time.Time) time.Duration, t time.Time) time.Duration { return verifNowT().Sub(t) }
+
+func verifUntil(_ func(time.Time) time.Duration, t time.Time) time.Duration { return t.Sub(verifNowT()) }
+
+`
+
 
 const atomHelpers = `func verifAtom01[R any](site uint32, f func() R) R { verifStep(site); return f() }
 func verifAtom10[A any](site uint32, f func(A), a A) { verifStep(site); f(a) }
@@ -834,6 +905,16 @@ func rewriteAtomics(files []*ast.File) {
 					call.Args = append([]ast.Expr{&ast.BasicLit{Kind: token.INT, Value: fmt.Sprintf("%d|0x%x", id, uint32(spinFlag))}, call.Fun}, call.Args...)
 					call.Fun = &ast.Ident{Name: "verifYield"}
 					return true
+				}
+				if tf.Pkg().Path() == "time" && (tf.Name() == "Now" && len(call.Args) == 0 || (tf.Name() == "Since" || tf.Name() == "Until") && len(call.Args) == 1) {
+					if sig, ok := tf.Type().(*types.Signature); ok && sig.Recv() == nil {
+						// the simulator's logical clock; the original function
+						// stays mentioned (its import stays used)
+						clockSites++
+						call.Args = append([]ast.Expr{call.Fun}, call.Args...)
+						call.Fun = &ast.Ident{Name: "verif" + tf.Name()}
+						return true
+					}
 				}
 				if tf.Pkg().Path() == "sync" && tf.Name() == "Do" && len(call.Args) == 1 {
 					// (*sync.Once).Do: see verifOnceDo in the generated file
